@@ -5,6 +5,10 @@ import "time"
 const m = time.Minute
 
 var specs = []Spec{
+	{ID: "C01", Level: "exploration", MinDistinct: 50, Engines: []Engine{
+		{Name: "seq", Pkg: "./mon/c01", Procs: 1},
+		{Name: "par", Pkg: "./mon/c01par", Race: true, DeathSig: "C01/par:process-died"},
+	}},
 	{ID: "C02", Level: "exploration", MinDistinct: 50, Engines: []Engine{
 		{Name: "seq", Pkg: "./mon/c02", Procs: 1},
 		{Name: "coop", Pkg: "./mon/chainco", Env: []string{"VERIF_PROP=C02"}},
